@@ -3,7 +3,7 @@
 import os
 SPEC = os.path.join(os.path.dirname(os.path.dirname(os.path.abspath(__file__))), "spec")
 
-BASE = dict(breaks="BreaksQ", degs="DegsQ", maxnpts=5, pts='"gen"', wts='"none", "gen"', nodesize=2,
+BASE = dict(breaks="BreaksQ", degs="DegsQ", maxnpts=5, pts='"gen"', wts='"none", "gen", "const"', nodesize=2,
             scenario="single", prep=0, depth=1, odegs="DegsQ", omax=4, props=[], extra="Extra0")
 
 def S(*a):
@@ -23,9 +23,9 @@ ROWS = {
  "elevate_thorough": dict(acts=S("CvDegreeIncrease"), props=["ElevatePreserves"], pts='"gen", "unit"', wts='"none", "gen", "gen2"', degs="DegsT", maxnpts=6),
  "split_quick": dict(acts=S("CvSplit"), props=["SplitRestricts"]),
  "split_thorough": dict(acts=S("CvSplit"), props=["SplitRestricts"], pts='"gen", "unit"', wts='"none", "gen", "gen2"', degs="DegsT", maxnpts=6),
- "remove_quick": dict(acts=S("CvKnotInsert", "CvKnotRemove"), scenario="history", prep=1, depth=2, maxnpts=4, nodesize=2, props=["RemoveExactOrRefused"]),
+ "remove_quick": dict(acts=S("CvKnotInsert", "CvKnotRemove"), scenario="history", prep=1, depth=2, maxnpts=4, nodesize=2, props=["RemoveExactOrRefused"], wts='"none", "gen", "const"'),
  "remove_thorough": dict(acts=S("CvKnotInsert", "CvKnotRemove"), scenario="history", prep=1, depth=2, maxnpts=5, degs="DegsT", nodesize=2, props=["RemoveExactOrRefused"], wts='"none", "gen", "gen2"'),
- "decrease_quick": dict(acts=S("CvDegreeIncrease", "CvDegreeDecrease"), scenario="history", prep=1, depth=2, maxnpts=4, props=["ReduceExactOrRefused"]),
+ "decrease_quick": dict(acts=S("CvDegreeIncrease", "CvDegreeDecrease"), scenario="history", prep=1, depth=2, maxnpts=4, props=["ReduceExactOrRefused"], wts='"none", "gen", "const"'),
  "decrease_thorough": dict(acts=S("CvDegreeIncrease", "CvDegreeDecrease"), scenario="history", prep=1, depth=2, maxnpts=5, degs="DegsT", props=["ReduceExactOrRefused"], wts='"none", "gen", "gen2"'),
  "join_quick": dict(acts=S("CvSplitTake", "CvJoin"), depth=2, maxnpts=4, omax=3, props=["JoinRestores"], wts='"none"'),
  "join_thorough": dict(acts=S("CvSplitTake", "CvJoin"), depth=2, maxnpts=5, omax=4, degs="DegsT", props=["JoinRestores"], wts='"none", "gen"'),
